@@ -315,6 +315,8 @@ class Ctx:
             self.solver.add(c)
         self.tainted = False
         self.known_tags = {}
+        self.record_free = None
+        self.force_free = None
         self.notes = []
         self.nbranch = 0
 
@@ -403,7 +405,21 @@ class Ctx:
         """Unconstrained n-way fork (taint: over-approximates reachability)."""
         self.tainted = True
         self.notes.append(why)
-        return self.choose([True] * n)
+        # tape mode: a second execution of the same step re-takes the free decisions of the first, in order
+        if self.force_free is not None and self.force_free:
+            want = self.force_free.pop(0)
+            if want < n:
+                if self.pos < len(self.decisions):
+                    d = self.decisions[self.pos]
+                    self.pos += 1
+                    return d
+                self.decisions.append(want)
+                self.pos += 1
+                return want
+        d = self.choose([True] * n)
+        if self.record_free is not None:
+            self.record_free.append(d)
+        return d
 
     def concretize_tag(self, node):
         if node.id in self.known_tags:
